@@ -3,8 +3,19 @@
 Dnssec.tla (chain of trust + one tampering, validation pipeline as actions) is
 model-checked exhaustively; sampled cases are concretised with real keys and
 signatures (harness/authkit) and resolved by the real edns+cache+resolver chain.
+
+The case has a configuration dimension: the `fallbackservers` resolver (none | honest | lying) that the failover
+middleware may ask when the resolution says SERVFAIL.  The model's Failover action is the reply rule the statement
+implies (a validation verdict is final; AD is sdns's own statement); failover.go as built is its negative twin.
 """
+import json
+
 import vf
+
+# negative twins of the Failover action: (cfg, the one invariant it must violate)
+NEG_TWINS = (("Neg_AsBuilt_Verdict.cfg", "VerdictIsFinal"), ("Neg_AsBuilt_Data.cfg", "NeverAlteredData"),
+             ("Neg_AsBuilt_AD.cfg", "ADImpliesSecure"), ("Neg_AsBuilt_Anchor.cfg", "NoAnchorFailsClosed"),
+             ("Neg_RelayAD.cfg", "ADImpliesSecure"))
 
 
 def cases_from(ctx, num, cfg="Sim_Dnssec.cfg"):
@@ -15,7 +26,7 @@ def cases_from(ctx, num, cfg="Sim_Dnssec.cfg"):
         if stN.get("pc") != "done":
             continue
         c = {"zone": st0["zone"], "qk": st0["qk"], "flags": st0["flags"], "tamper": st0["tamper"],
-             "anchor": st0["anchor"], "exp": {"rcode": stN["reply"]["rcode"], "ad": stN["reply"]["ad"]}}
+             "anchor": st0["anchor"], "fallback": st0.get("fb", "none"), "exp": {"rcode": stN["reply"]["rcode"], "ad": stN["reply"]["ad"]}}
         k = repr(c)
         if k not in seen:
             seen.add(k)
@@ -23,17 +34,131 @@ def cases_from(ctx, num, cfg="Sim_Dnssec.cfg"):
     return out
 
 
+def fallback_cases():
+    """The fallback dimension, replayed on every run whatever the seed draws.  Expectations are the statement's rule
+    (Dnssec.tla Failover with FailoverRule = "statement")."""
+    none = {"rootkey": "none", "rootref": "none", "referral": "none", "dnskey": "none", "answer": "none"}
+    do, adq, plain, cd = ({"do": True, "ad": False, "cd": False}, {"do": False, "ad": True, "cd": False},
+                          {"do": False, "ad": False, "cd": False}, {"do": True, "ad": False, "cd": True})
+    out = []
+
+    def add(zone, qk, fl, t, fb, rcode, ad, anchor=True):
+        out.append({"zone": zone, "qk": qk, "flags": fl, "tamper": dict(none, **t), "anchor": anchor, "fallback": fb,
+                    "exp": {"rcode": rcode, "ad": ad}})
+
+    # the headline cases first (a driver run keeps its first 20 violations): altered answer / forged denial + lying
+    # fallback = forged data with AD=1 to a validating client; lame + honest fallback = AD on unvalidated data
+    add("signed", "a", do, {"answer": "data"}, "lying", "servfail", False)
+    add("signed", "nx", do, {"answer": "dropproof"}, "lying", "servfail", False)
+    add("signed", "a", do, {"answer": "data"}, "honest", "servfail", False)
+    add("signed", "a", do, {}, "lying", "servfail", False, anchor=False)
+    add("signed", "a", do, {"answer": "lame"}, "honest", "noerror", False)
+    for fb in ("lying", "honest"):
+        for zone in ("signed", "nsec3", "signed-same"):
+            for qk in ("a", "nx"):
+                truth = "nxdomain" if qk == "nx" else "noerror"
+                for fl in ((do, adq, plain) if zone == "signed" else (do,)):
+                    wants_ad = fl["do"] or fl["ad"]
+                    # nothing wrong: the fallback resolver is never asked
+                    add(zone, qk, fl, {}, fb, truth, wants_ad)
+                    # a validation verdict is final, whatever another resolver would say
+                    for t in ({"answer": "data"}, {"answer": "sigbytes"}, {"answer": "expired"}, {"answer": "strip"},
+                              {"dnskey": "strip"}, {"dnskey": "roguekey"}, {"referral": "swapds"}, {"referral": "dropds"},
+                              {"rootref": "dropds"}, {"rootkey": "strip"}):
+                        add(zone, qk, fl, t, fb, "servfail", False)
+                    # the answering server refuses: the one case a fallback resolver is for - its data, never AD
+                    add(zone, qk, fl, {"answer": "lame"}, fb, truth if fb == "honest" else "noerror", False)
+                # no trust anchor: SERVFAIL rather than unvalidated data - also with the answering server lame
+                add(zone, qk, do, {}, fb, "servfail", False, anchor=False)
+                add(zone, qk, do, {"answer": "lame"}, fb, "servfail", False, anchor=False)
+                # CD=1: validation is off for this client, data flows, never AD
+                add(zone, qk, cd, {"answer": "data"}, fb, truth, False)
+                add(zone, qk, cd, {"answer": "lame"}, fb, truth if fb == "honest" else "noerror", False)
+            add(zone, "nx", do, {"answer": "dropproof"}, fb, "servfail", False)
+            add(zone, "wild", do, {"answer": "dropproof"}, fb, "servfail", False)
+        # the root itself is asked and refuses; with and without anchors
+        for anchor in (True, False):
+            add("signed", "rootnx", do, {"answer": "lame"}, fb,
+                "servfail" if not anchor else ("nxdomain" if fb == "honest" else "noerror"), False, anchor=anchor)
+        # an unsigned zone whose proof of insecurity is broken is bogus like any other; intact and lame: the fallback's data
+        for zone in ("insecure", "optout"):
+            for t in ({"referral": "strip"}, {"referral": "dropproof"}):
+                add(zone, "a", do, t, fb, "servfail", False)
+            add(zone, "a", do, {"answer": "lame"}, fb, "noerror", False)
+    # no fallback: a lame server is SERVFAIL (the new fault kind on the old configuration)
+    for zone in ("signed", "insecure"):
+        for qk in ("a", "nx", "rootnx"):
+            add(zone, qk, do, {"answer": "lame"}, "none", "servfail", False)
+    # a TTL raised in flight does not touch authenticity (the signed form carries the RRSIG's Original TTL): truth, AD.
+    # What TTL is then served is logged as an observation (RFC 4035 5.3.3; not a predicate of this statement)
+    for zone in ("signed", "nsec3"):
+        for qk in ("a", "cname", "wild", "nx", "nodata"):
+            add(zone, qk, do, {"answer": "ttlup"}, "none", "nxdomain" if qk == "nx" else "noerror", True)
+    return out
+
+
+def observations(ctx, totals):
+    """Logged, never a verdict."""
+    n = totals.get("obs_ttl_above_rrsig_original_ttl", 0)
+    if n:
+        sample = next((k[len("obs_ttl_sample: "):] for k in sorted(totals) if k.startswith("obs_ttl_sample: ")), "")
+        print("OBSERVATION property=C01: %d replies (%d with AD=1) serve an authenticated RRset with a TTL above its RRSIG's "
+              "Original TTL - an upstream that raises the TTL in flight is not cut back (RFC 4035 5.3.3); e.g. %s" % (
+                  n, totals.get("obs_ttl_above_rrsig_original_ttl_with_ad", 0), sample), flush=True)
+    n = totals.get("obs_lying_fallback_data_relayed_on_availability_failure", 0)
+    if n:
+        print("OBSERVATION property=C01: %d replies relay a lying fallback resolver's data after an availability failure "
+              "(lame server, no validation verdict): the configured fallback is trusted for the data like a forwarder; "
+              "not judged" % n, flush=True)
+    n = totals.get("bogus_ede_0", 0)
+    if n:
+        print("OBSERVATION property=C01: %d validation failures carry extended error 0 (Other), not a DNSSEC code "
+              "(e.g. a bad signature: \"dns: bad signature\")" % n, flush=True)
+    ctx.cov["observations"] = {k: v for k, v in totals.items() if k.startswith(("obs_", "bogus_ede_", "fallback_"))
+                               and not k.startswith("obs_ttl_sample")}
+
+
 def run(ctx, replay):
     thorough = ctx.tier == "thorough"
+    if replay:
+        # a recorded violation carries its case: rebuild exactly that world and resolve it again
+        with open(replay) as f:
+            rp = json.load(f).get("replay", {})
+        if rp.get("driver") == "c01" and rp.get("case"):
+            res = ctx.go_driver("./c01", "TestDnssecReplay", {"cases": [rp["case"]]}, name="c01_replay", timeout=600)
+            ctx.take_driver_result(res, "[Dnssec] ")
+            ctx.cov["replay"]["dnssec_replay"] = {"cases": res["cases"], "counters": res.get("counters", {})}
+            if res.get("skipped"):
+                raise vf.MachineryError("C01 replay skipped: %s" % res["skipped"][:3])
+            ctx.cov["states"] = ctx.cov["transitions"] = 1   # no model run in a replay (as checks/c07.py)
+            ctx.sample(rp["case"])
+            return
     ctx.cov["rule"] = ("case = (target zone kind, question kind, client DO/AD/CD, one tampering <position,kind>, anchor present) "
                        "drawn by TLC from Dnssec.tla; each is built with real keys/signatures, resolved twice (second time from "
                        "the caches the first filled) and judged against the zone's ground truth; distinct = distinct cases")
     ctx.assumptions += ["cryptographic primitives themselves are not re-verified (C14 is out of scope)",
                         "single-server zones: an effective tampering leaves no authentic path, so SERVFAIL is the only legal outcome",
-                        "pairs = one tampering at each of two different positions of the path"]
+                        "pairs = one tampering at each of two different positions of the path",
+                        "fallback resolver: none | honest (validating, clean path of its own: truth, AD) | lying (forged data, AD); "
+                        "after an availability failure (lame server) the fallback's DATA is not judged (operator-designated "
+                        "trusted source, as a forwarder), sdns's AD bit on it is",
+                        "the fault 'lame' comes alone, not paired with a tampering (the statement does not rank a refusal "
+                        "against a bogus verdict met later on the same path)"]
     ctx.tlc("Dnssec", "MC_Dnssec.tla", "MC_Dnssec.cfg", workers=4, timeout=900, heap="6g")
     ctx.tlc("Dnssec", "MC_Dnssec.tla", "MC_DnssecPairs.cfg", workers=4 if not thorough else 8, timeout=1500, heap="8g")
-    cases = cases_from(ctx, 200 if not thorough else 3000)
+    if thorough:
+        ctx.tlc("Dnssec", "MC_Dnssec.tla", "MC_DnssecPairsFb.cfg", workers=8, timeout=2400, heap="8g")
+        # the as-built failover rule differs from the statement's only where a fallback resolver is configured
+        ctx.tlc("Dnssec", "MC_Dnssec.tla", "MC_DnssecAsBuiltNoFb.cfg", workers=4, timeout=900, heap="6g")
+    # negative twins: failover.go as built / half repaired must violate the invariant each cfg names
+    for cfg, inv in NEG_TWINS:
+        r = ctx.tlc("Dnssec", "MC_Dnssec.tla", cfg, workers=2, timeout=300, heap="2g", must_pass=False, count=False, tag="negative")
+        if r.ok or r.violated != inv:
+            raise vf.MachineryError("negative twin %s: expected a violation of %s, TLC says ok=%s violated=%s" % (cfg, inv, r.ok, r.violated))
+    ctx.cov["negative_twins"] = [c for c, _ in NEG_TWINS]
+    cases = fallback_cases()
+    cases += cases_from(ctx, 200 if not thorough else 3000)
+    cases += cases_from(ctx, 60 if not thorough else 2000, "Sim_DnssecFb.cfg")
     cases += cases_from(ctx, 120 if not thorough else 3000, "Sim_DnssecPairs.cfg")
     # corners of the model's case product that every run replays, whatever the seed draws: the attacks that
     # need a whole response to be rebuilt rather than one attribute to be flipped
@@ -81,16 +206,24 @@ def run(ctx, replay):
     # split into chunks so one driver process does not accumulate hundreds of resolvers
     chunk = 130
     honest_all = honest_ok = 0
+    totals = {}
     for i in range(0, len(cases), chunk):
         res = ctx.go_driver("./c01", "TestDnssecReplay", {"cases": cases[i:i + chunk]}, name="c01_%d" % i, timeout=1500)
         ctx.take_driver_result(res, "[Dnssec] ")
         cn = res.get("counters", {})
+        for k, v in cn.items():
+            totals[k] = totals.get(k, 0) + v
         honest_all += cn.get("honest_cases", 0)
         honest_ok += cn.get("honest_resolved", 0)
         ctx.cov["replay"]["dnssec_%d" % i] = {"cases": res["cases"], "drift": res["drift"], "counters": cn,
                                               "drift_notes": res.get("drift_notes", [])[:6], "skipped": res.get("skipped", [])}
         if res.get("skipped"):
             raise vf.MachineryError("C01 replay skipped: %s" % res["skipped"][:3])
+    observations(ctx, totals)
+    # the fallback dimension must have been exercised both ways: never asked (nothing failed) and asked
+    fbc, fba = totals.get("fallback_cases", 0), totals.get("fallback_cases_asked", 0)
+    if not 0 < fba < fbc:
+        raise vf.MachineryError("vacuous fallback dimension: %d cases with a fallback resolver, %d of them asked it" % (fbc, fba))
     ctx.cov["honest_cases"] = honest_all
     ctx.cov["honest_resolved"] = honest_ok
     if honest_all and honest_ok * 2 < honest_all:
